@@ -1,6 +1,6 @@
 """C10 — redirections (DESIGN §3 C10)."""
 from rulelib import SHIPPED, call_sites, cfg_of, defs_of, owner
-from dataflow import base_local, borrow_root, field_stores, origins
+from dataflow import base_local, borrow_root, field_stores, flow_back, origins
 from facts import canon
 
 SETUP = "brush_core::interp::setup_redirect"
@@ -15,6 +15,12 @@ PERSISTENT_ALLOWED = {
     "brush_shell::entry::enable_xtrace_to_file": "start-up: xtrace output file descriptor",
     SHELL + "::new": "shell construction: descriptors passed by the embedder",
 }
+
+
+PATH_PROBES = {"std::path::Path::" + m for m in ("is_file", "exists", "try_exists", "is_dir", "is_symlink", "metadata", "symlink_metadata",
+                                                    "read_dir", "read_link", "canonicalize")}
+FS_FREE_FNS = {"std::fs::" + m for m in ("metadata", "symlink_metadata", "read", "read_to_string", "write", "remove_file", "read_dir", "create_dir", "create_dir_all",
+               "rename", "copy", "canonicalize", "exists", "read_link", "remove_dir", "hard_link", "set_permissions")}
 
 
 def run(prog, chk):
@@ -129,6 +135,49 @@ def run(prog, chk):
                 chk.fail("R10.3", SETUP, "control-no-truncate", "positive control failed: no truncate on the non-noclobber side (rule blind?)", nontrivial=False)
         if not found:
             chk.fail("R10.3", SETUP, "noclobber-branch-missing", "no branch on disallow_overwriting_regular_files_via_output_redirection in setup_redirect")
+
+    # ---- R10.5 the probed file is the opened file ------------------------------------------------------------
+    # brush never chdir()s: `cd` only updates Shell::working_dir, so a relative path handed to the OS resolves against the
+    # directory the process was started in. Every path-taking filesystem call in the redirect set-up must therefore receive a
+    # path that went through Shell::absolute_path (or Shell::open_file, which applies it) — otherwise the noclobber test looks
+    # at a different file from the one that is then opened.
+    chk.rule("R10.5", "every path handed to a filesystem probe/open in the redirect set-up functions is resolved against the shell's "
+                      "working directory (flows through Shell::absolute_path) — the noclobber test inspects the file that is opened")
+    RESOLVERS = (SHELL + "::absolute_path", SHELL + "::working_dir")
+    nprobe = 0
+    for name in (SETUP, "brush_core::interp::setup_redirect_output_and_error_to", "brush_core::interp::setup_process_substitution",
+                 SHELL + "::open_file"):
+        fb = prog.impl_body(name)
+        if not chk.anchor("R10.5", name, fb):
+            continue
+        dd = defs_of(fb)
+        for bbi, t in fb.calls():
+            cal = t.best_callee() or ""
+            if cal in PATH_PROBES:
+                op = t.args[0]
+            elif cal == "std::fs::OpenOptions::open":
+                op = t.args[1]
+            elif cal in FS_FREE_FNS:
+                op = t.args[0]
+            else:
+                continue
+            nprobe += 1
+            flows = flow_back(fb, dd, op)
+            vias = set()
+            for f in flows:
+                vias |= set(f.via)
+            consts = flows and all(f.kind == 'const' for f in flows)
+            what = cal.rsplit("::", 1)[-1]
+            if any(v in RESOLVERS for v in vias):
+                chk.ok("R10.5", "resolved:%s@%s" % (what, name.rsplit("::", 1)[-1]), "path operand flows through Shell::absolute_path", function=name)
+            elif consts:
+                chk.ok("R10.5", "constant-path:%s@%s" % (what, name.rsplit("::", 1)[-1]), "constant absolute path", nontrivial=False, function=name)
+            else:
+                chk.fail("R10.5", name, "unresolved-path:" + what,
+                         "%s calls %s at %s on a path that was not resolved against the shell's working directory (no Shell::absolute_path on its "
+                         "data flow): after `cd` it names a file relative to the directory the process was started in, not the file the "
+                         "redirection opens" % (name, cal, fb.loc(t.line)))
+    chk.floor("R10.5", "filesystem probe/open sites in redirect set-up", nprobe, 2)
 
     # ---- R10.4 here-doc writer dropped ---------------------------------------------------------------------
     chk.rule("R10.4", "setup_open_file_with_contents: the pipe writer is dropped after write_all on every path to Ok")
